@@ -2,10 +2,12 @@ package checks
 
 import (
 	"fmt"
+	"math/rand"
 	"sort"
 	"strconv"
 
 	"verif/der"
+	"verif/gen"
 	"verif/mon"
 )
 
@@ -348,5 +350,82 @@ func init() {
 			o, _ := mon.ParseObj(seed.Kind, seed.Name+"+siblings", dc.Encode())
 			return o, fmt.Sprintf("%d sibling names", len(add))
 		},
+	})
+}
+
+// ---- generated-pool family ----
+//
+// What the property-specific generators know how to build is also put in
+// front of every universal monitor (no-panic, severity, determinism, I/O
+// freedom, JSON ...): each GeneralName pool entry in SAN and IAN of TLS and
+// S/MIME subscribers, AIA location shapes, adversarial DN values on leaf, CA
+// and self-issued templates.
+
+func genPoolSize() int { return len(gen.GNPool)*3 + len(c20AIAHosts)*2 + 120 }
+
+func genPoolCase(k int) (*mon.Obj, string) {
+	nb := gen.D(2024, 3, 1)
+	n := len(gen.GNPool)
+	switch {
+	case k < 3*n:
+		e := gen.GNPool[k%n]
+		var s *gen.Spec
+		switch k / n {
+		case 0:
+			s = gen.TLSLeaf(nb, "www.example.com")
+			s.ReplaceExt(gen.ExtSAN(false, gen.GNDNS("www.example.com"), e.Node()))
+		case 1:
+			s = gen.SMIMELeaf(nb, "alice@example.com")
+			s.ReplaceExt(gen.ExtSAN(false, gen.GNEmail("alice@example.com"), e.Node()))
+			s.Exts = append(s.Exts, gen.ExtIAN(false, e.Node()))
+		default:
+			s = gen.TLSLeaf(nb, "www.example.com")
+			s.Subject = gen.Name(gen.A(gen.OIDC, "US"), gen.A(gen.OIDO, "Example Org"))
+			s.ReplaceExt(gen.ExtSAN(true, e.Node(), e.Node()))
+			s.Exts = append(s.Exts, gen.ExtIAN(false, e.Node(), gen.GNDNS("ca.example.net")))
+		}
+		o, _ := mon.ParseObj(0, "gen/pool/gn/"+e.Label, s.DER())
+		return o, "general name " + e.Label
+	case k < 3*n+2*len(c20AIAHosts):
+		j := k - 3*n
+		u := c20AIAHosts[j%len(c20AIAHosts)]
+		var s *gen.Spec
+		if j/len(c20AIAHosts) == 0 {
+			s = gen.TLSLeaf(nb, "www.example.com")
+		} else {
+			s = gen.SMIMELeaf(nb, "alice@example.com")
+		}
+		s.ReplaceExt(gen.ExtAIA(gen.AD(gen.OIDAdOCSP, gen.GNURI(u)), gen.AD(gen.OIDAdIssuers, gen.GNURI(u))))
+		o, _ := mon.ParseObj(0, "gen/pool/aia", s.DER())
+		return o, "AIA " + u
+	default:
+		j := k - 3*n - 2*len(c20AIAHosts)
+		rng := rand.New(rand.NewSource(int64(7700 + j/4)))
+		name := c20RandName(rng)
+		var s *gen.Spec
+		switch j % 4 {
+		case 0: // leaf, issuer := subject
+			s = gen.TLSLeaf(nb, "www.example.com")
+			s.Subject, s.Issuer = name, name.Clone()
+		case 1: // CA whose subject is the adversarial name
+			s = gen.SubCA(nb)
+			s.Subject = name
+		case 2: // self-issued CA (same DN bytes both sides; junk signature, so not self-signed)
+			s = gen.SubCA(nb)
+			s.Subject, s.Issuer = name, name.Clone()
+		default: // leaf issued BY the adversarial name
+			s = gen.TLSLeaf(nb, "www.example.com")
+			s.Issuer = name
+		}
+		o, _ := mon.ParseObj(0, "gen/pool/dn", s.DER())
+		return o, fmt.Sprintf("adversarial DN, template %d", j%4)
+	}
+}
+
+func init() {
+	dirFams = append(dirFams, dirFam{
+		name: "gen-pool",
+		n:    func(c *mon.Ctx) int { return genPoolSize() },
+		gen:  func(c *mon.Ctx, k int) (*mon.Obj, string) { return genPoolCase(k) },
 	})
 }
